@@ -5,12 +5,17 @@
 (* through lexer + lossless parser.  Serves C09 and the relation part of    *)
 (* C02.  One REPLAY line per (input, allow).                                *)
 EXTENDS Rel, Json
-CONSTANTS N, M
+CONSTANTS N, M, M2
 Deep == {"I", "(", "[", "<", "!", "W", "$", "{", ":"}
+\* ... and up to length M2 over the alphabet of COMPLETE groups (openers with their closers and the two separators),
+\* which reaches the recovery arms entered after a closed group
+Closed == {"I", "(", ")", "[", "]", "<", ">", ",", "|"}
 MCInit ==
   \/ \E n \in 0..N : \E s \in [1..n -> RelClass] : \E a \in BOOLEAN :
         InitWith([text |-> s, toks |-> Lex(s), allow |-> a])
   \/ \E n \in (N+1)..M : \E s \in [1..n -> Deep] : \E a \in BOOLEAN :
+        InitWith([text |-> s, toks |-> Lex(s), allow |-> a])
+  \/ \E n \in (N+1)..M2 : \E s \in [1..n -> Closed] : \E a \in BOOLEAN :
         InitWith([text |-> s, toks |-> Lex(s), allow |-> a])
 Emit == Done => PrintT(<<"REPLAY", ToJson([
            i |-> case.text, a |-> case.allow,
